@@ -4,6 +4,7 @@ Function/method emitter
 
 import ast
 from ast import Expr, FunctionDef, Load, Name, Return, arguments
+from copy import deepcopy
 from typing import Optional
 
 import cdd.shared.ast_utils
@@ -75,6 +76,7 @@ def function(
     :return: AST node for function definition
     :rtype: ```FunctionDef```
     """
+    intermediate_repr = deepcopy(intermediate_repr)
     params_no_kwargs = tuple(
         filter(
             lambda param: not param[0].endswith("kwargs"),
